@@ -19,7 +19,7 @@ Rec(op, k, m) == [op |-> op, k |-> k, m |-> m]
 SimInit == Init /\ hist = <<>>
 
 HighLevel ==
-  \/ \E k \in {"key.private", "share"}, m \in PreModes : PreCreate(N, k, m) /\ hist' = Append(hist, Rec("PreCreate", k, m))
+  \/ \E k \in {"key.private", "share", "dkg.db"}, m \in PreModes : PreCreate(N, k, m) /\ hist' = Append(hist, Rec("PreCreate", k, m))
   \/ GenerateKey(N) /\ hist' = Append(hist, Rec("GenerateKey", "", 0))
   \/ StartDaemon(N) /\ hist' = Append(hist, Rec("StartDaemon", "", 0))
   \/ (hist # <<>> /\ hist[Len(hist)].op # "StartDaemon" /\ StopDaemon(N) /\ hist' = Append(hist, Rec("StopDaemon", "", 0)))
